@@ -46,7 +46,8 @@ ORACLES = {
                      "model (table), and directly by the zlib oracle test (random partitions vs one shot)",
     "O_zlib_oneshot": "zlib.decompress(z) = out implies the streaming decompressor yields out without error (zlib oracle test)",
     "O_decode": "bytes.decode() (strict UTF-8): an ASCII byte is never part of a multi-byte sequence, so decoding commutes with splitting at "
-                "ASCII bytes; checked by the executable Gallina UTF-8 decoder vs bytes.decode on random byte strings (cmd decode)",
+                "ASCII bytes (decode_ok); PROVED for the executable Gallina UTF-8 decoder (C18_oracles_satisfiable), which is compared with "
+                "bytes.decode on random and mutated byte strings on every run (cmd decode)",
     "O_urlopen": "urllib.request.urlopen / open: what loading from a URL or a path returns (Section variables url_load / file_load of "
                  "Cli.v); exercised with a fake urlopen serving inventories, garbage or raising URLError, and real scratch files",
     "O_match_line": "re.match of the v2 line regex: an abstract function in the theorems (both loaders use the same literal: Gen.regex_same); the "
@@ -1302,34 +1303,46 @@ def replay(ctx, data):
     return 0 if ok else 1
 
 
-LEVEL_TEXT = ("Proof (Coq, 30 theorems, all closed under the global context; since round 3 the reader methods, the loaders and the "
-              "converters are regenerated from inventory.py on every run and proved equal to the models, so the _src theorems "
-              "C18_chunking_independent_src / C18_agrees_with_sphinx_src / C18_sphinx_roundtrip_src / C18_load_terminates_src hold for "
-              "what the code says now): for every list of read() results, load() equals load() "
-              "of the same bytes in one read - header lines, carried-over buffer, compressed body - except that for a stream zlib "
-              "itself rejects every chunking fails with zlib.error or UnicodeDecodeError (C18_chunking_independent, "
-              "C18_any_two_chunkings, witness C18_chunking_exception_class_refuted); readline/load never exhaust their fuel "
-              "(C18_readline_terminates, C18_load_terminates); whenever Sphinx's loads accepts the bytes, MyST's load accepts them "
-              "under every chunking with extensionally the same entries - names with spaces, '$', '-', priorities, duplicates, v1 and "
-              "v2 - and the same project/version for plain headers (C18_agrees_with_sphinx; premises: header lines valid UTF-8, \\n the only line "
-              "separator in the body except \\r directly before \\n (CR LF files covered); the remaining disagreement is characterised: "
-              "for every text Sphinx's entries are MyST's entries of the text with all separators normalised to \\n "
-              "(C18_sphinx_lines_normalised, C18_separator_characterisation), every separator other than \\n does disagree "
-              "(C18_separator_family_refuted, C18_nosep_needed = the recorded open finding); a malformed v2 line / blank "
-              "v1 line is skipped and the rest of the file loads as without it under every chunking, a short v1 line fails the load "
-              "(C18_bad_line_isolated, C18_bad_line_isolated_any_chunking, C18_blank_line_skipped_v1, C18_short_line_fails_v1); the "
-              "glue: fetch/CLI source and base-URL dispatch (C18_fetch_dispatch), every loaded inventory has unique keys and the CLI "
-              "loop keeps exactly the entries matching the four filters (C18_load_unique_keys, C18_cli_filter_exact); posixpath.join "
-              "case by case (C18_posixpath_join); from_sphinx(to_sphinx inv) = inv for "
-              "well-formed inv and every well-formedness condition is needed (C18_sphinx_roundtrip, C18_roundtrip_conditions_needed); "
-              "both loaders use the same regenerated literals (C18_same_literals); the oracle hypotheses are satisfiable, the UTF-8 "
-              "ones are proved for the executable decoder (C18_oracles_satisfiable). The model (coq/InvLoad) is tied to inventory.py "
-              "and to the installed Sphinx loader by differential correspondence of the extracted model on every run.")
-LEVEL_NOTE = ("Trusted: Coq kernel; the hand transcriptions coq/InvLoad/{Reader,Load,SphinxInv}.v (checked by correspondence on "
-              "every split point of generated files, not proved); zlib as a streaming transducer whose state is determined by the "
-              "consumed prefix (zlib_stream_ok / zlib_oneshot_ok, measured per byte on the real zlib for every correspondence case); "
-              "re.match as an abstract function in the theorems (same literal on both sides; the executable regex engine runs the AST "
-              "regenerated with re._parser and is compared with re on generated lines); bytes.decode through decode_ok (proved for the "
-              "Gallina UTF-8 decoder, which is compared with bytes.decode). Python's recursion limit and memory are outside the model. "
-              "Open finding: lines containing \\r, VT, FF, FS, GS, RS, NEL, LS or PS are split by Sphinx 8.2 (str.splitlines) and not "
-              "by MyST.")
+LEVEL_TEXT = (
+    "Proof (Coq 8.16, 32 theorems in coq/Props/C18.v, every one closed under the global context, coqchk clean). "
+    "CODE TIE: InventoryFileReader.read_buffer / readline / readlines / read_compressed_chunks / read_compressed_lines, load, _load_v1, _load_v2, "
+    "from_sphinx and to_sphinx are regenerated from inventory.py statement by statement on every run (gen/c18_src.py -> Gen/InventorySrc.v) "
+    "and proved equal to the hand-written models (C18_inventory_src_refines); the line regex, _BUFSIZE, header literals and slice offsets of "
+    "MyST and of the installed Sphinx are regenerated and proved identical (C18_same_literals). "
+    "CHUNKING: for every list of read() results load equals load of the same bytes in one read - header lines, the buffer carried over "
+    "into the compressed part, the compressed body - except that for a stream zlib itself rejects every chunking fails, with zlib.error or "
+    "UnicodeDecodeError (C18_chunking_independent[_src], C18_any_two_chunkings, C18_live_is_concat; witness that the exception class can differ: "
+    "C18_chunking_exception_class_refuted); readline / load never exhaust their fuel (C18_readline_terminates, C18_load_terminates[_src]). "
+    "SPHINX: whenever sphinx.util.inventory.InventoryFile.loads accepts the bytes, load accepts them under every chunking and yields "
+    "extensionally the same entries (names with spaces, '$', '-', priorities, duplicates incl. py:module, v1 and v2), and the same "
+    "project / version for plain-ASCII headers (C18_agrees_with_sphinx[_src]); premises: the header lines are valid UTF-8, and in the decoded "
+    "body \\n is the only line separator except \\r directly before \\n (CR LF files are covered); premises are jointly satisfiable "
+    "(C18_agrees_premises_satisfiable). The remaining disagreement is characterised, not only witnessed: for EVERY text Sphinx's entries are "
+    "MyST's entries of the text with all separators normalised to \\n (C18_sphinx_lines_normalised, C18_separator_characterisation, "
+    "C18_separator_agreement_criterion), and each of the nine other separators does disagree (C18_separator_family_refuted, C18_nosep_needed = "
+    "the open finding sphinx:splitlines-separator). "
+    "BAD LINES: a malformed v2 line / a blank v1 line is skipped and the file loads as without it under every chunking, a short v1 line makes "
+    "the load fail (C18_bad_line_isolated, C18_bad_line_isolated_any_chunking, C18_blank_line_skipped_v1, C18_short_line_fails_v1, "
+    "C18_bad_line_premises_satisfiable). "
+    "ROUND TRIP: from_sphinx(to_sphinx inv) = inv for well-formed inv and each of the seven conditions is needed (C18_sphinx_roundtrip[_src], "
+    "C18_roundtrip_conditions_needed, C18_wf_inv_example). "
+    "GLUE: fetch_inventory / inventory_cli source and base-URL dispatch, every loaded inventory has unique keys, the CLI loop keeps exactly "
+    "the entries matching -d/-o/-n/-l (C18_fetch_dispatch, C18_load_unique_keys, C18_cli_filter_exact); posixpath.join case by case "
+    "(C18_posixpath_join, cited by C19). The oracle hypotheses are satisfiable and the UTF-8 ones are PROVED for the executable decoder "
+    "(C18_oracles_satisfiable). Every run also compares the extracted model with inventory.load on every split point of generated and mutated "
+    "files (quick ~55 k, thorough ~620 k cases) and evaluates the property directly on the implementation (quick ~36 k, thorough ~940 k).")
+LEVEL_NOTE = (
+    "Trusted: the Coq kernel; the statement-level translator gen/c18_src.py with its domain mapping (coq/InvLoad/SrcPrims.v; listed in TRUSTED: "
+    "Python slices / find / dict operations / generators / fuel terms; d[k] in read position is d.get(k, {}), guarded in the source) - the "
+    "hand-written models are no longer trusted, they are proved equal to the generated code; coq/InvLoad/SphinxInv.v, a hand transcription of the "
+    "installed Sphinx 8.2.3 loader (modelled external, compared with InventoryFile.loads on every run); coq/InvLoad/Cli.v (hand transcription of "
+    "the CLI / fetch glue, tied by correspondence through inventory_cli([...]) in json and yaml). Oracles (premises of the theorems, each "
+    "exercised on the real library on every run): zlib as a streaming transducer whose state is determined by the consumed prefix "
+    "(zlib_stream_ok, zlib_oneshot_ok; measured per byte on the real zlib for every correspondence case), bytes.decode (decode_ok; proved for the "
+    "Gallina UTF-8 decoder, which is compared with bytes.decode), re.match of the line pattern (an arbitrary function in the theorems - the same "
+    "literal on both sides; the executable engine runs the AST regenerated with re._parser and is compared with re), urlopen / open. "
+    "Outside the model: Python's recursion limit and memory, the network. "
+    "Defects found and repaired in /repo: duplicate py:module entries kept the last instead of the first (e050a46), the last line of a compressed "
+    "body without final newline was dropped (6a08552), readline recursed once per read() -> RecursionError for a long line read in small pieces "
+    "(fa52e20). Open finding (KNOWN-FINDING on every run): \\r, VT, FF, FS, GS, RS, NEL, LS, PS inside a line are line breaks for Sphinx 8.2 "
+    "(str.splitlines) and ordinary whitespace for MyST; Sphinx's own dump does not escape them, so mimicking it is not obviously right.")
